@@ -2,7 +2,7 @@
     and followed by [Print Assumptions]. *)
 From Coq Require Import List ZArith NArith Bool Permutation Sorted.
 From Kardia Require Import Base.Int64 C12.Model C12.Spec C12.ProofsSort C12.ProofsUpdate C12.ProofsSpec
-     C12.ProofsFair C12.ProofsRefine C12.ProofsUpdate2 C12.ProofsUpdate3 C12.ProofsUpdate4 C12.ProofsExamples C12.Open Generated.C12Facts.
+     C12.ProofsFair C12.ProofsRefine C12.ProofsUpdate2 C12.ProofsUpdate3 C12.ProofsUpdate4 C12.ProofsUpdate5 C12.ProofsExamples C12.Open Generated.C12Facts.
 Import ListNotations.
 Local Open Scope Z_scope.
 
@@ -248,3 +248,31 @@ Theorem C12_update_refines_spec :
     spec_update max_total_voting_power (vs_vals s) cs (vs_vals s').
 Proof. exact update_refines_spec. Qed.
 Print Assumptions C12_update_refines_spec.
+
+(** completeness of the validation: a change set with distinct non-zero addresses, powers in
+    0..cap, removals only of members, whose resulting total (updates applied, removals
+    subtracted) is at most the cap and whose result is not empty (a newcomer, or a member that
+    is not removed) is accepted.  Together with the rejection theorems: the rejected change sets
+    are exactly the specified ones. *)
+Theorem C12_update_accepts_valid :
+  forall s cs,
+    good s -> cs <> [] -> valid_changes cs ->
+    (forall c, In c cs -> v_power c = 0 -> get_by_addr (v_addr c) (vs_vals s) <> None) ->
+    total_after_updates (vs_vals s) cs - lsum (vs_vals s) (filter (fun c => v_power c =? 0) cs)
+      <= max_total_voting_power ->
+    ((exists c, In c cs /\ 0 < v_power c /\ get_by_addr (v_addr c) (vs_vals s) = None) \/
+     (exists v, In v (vs_vals s) /\ ~ In (v_addr v) (map v_addr (filter (fun c => v_power c =? 0) cs)))) ->
+    exists s', update_with_change_set s cs true = Some (s', UOk).
+Proof. exact update_accepts_valid. Qed.
+Print Assumptions C12_update_accepts_valid.
+
+(** what holds right after a round (the window 2T is a property of the renormalisation point,
+    not of every intermediate state): from a window W the next state is within
+    max (W + pmax - pmin, T) *)
+Theorem C12_window_after_round_spec :
+  forall W pmin pmax l l' a,
+    NoDup (map v_addr l) -> (forall v, In v l -> pmin <= v_power v <= pmax) ->
+    0 <= total_power l -> within_window W l -> spec_round l l' a ->
+    within_window (Z.max (W + pmax - pmin) (total_power l)) l'.
+Proof. exact spec_round_window. Qed.
+Print Assumptions C12_window_after_round_spec.
